@@ -766,9 +766,10 @@ Lemma sess_step_inv : forall s e, is_reauth_b e = false -> sess_inv s ->
   sess_inv (fst (sess_step repaired s e)) /\
   (s_addr s <> None -> s_addr (fst (sess_step repaired s e)) <> None).
 Proof.
-  intros s e Hre Hinv. destruct e as [id wire| |w|w|w|aaa orc]; [| | | | |discriminate];
+  intros s e Hre Hinv. destruct e as [id wire| |w|w|w| |tid| |aaa orc]; [| | | | | | | |discriminate];
     cbn [sess_step];
-    try (apply sess_fsm_only_inv; [exact Hinv|]; try reflexivity; apply ipcp_learn_assigned).
+    try (apply sess_fsm_only_inv; [exact Hinv|]; try reflexivity; apply ipcp_learn_assigned);
+    try (split; [exact Hinv|auto]).
   pose proof (usable_assigned_of_inv s Hinv) as Hu.
   destruct Hinv as (v & Hv & Hl & Hz & Ha & Hp).
   assert (Hto : to4o (ic_assigned (s_cfg s)) = Some v).
@@ -795,7 +796,7 @@ Lemma sess_step_idle : forall fl s e, is_reauth_b e = false -> sess_idle s ->
   sess_idle (fst (sess_step fl s e)) /\ snd (sess_step fl s e) = [].
 Proof.
   intros fl s e Hre (H1 & H2 & H3). unfold sess_idle.
-  destruct e as [id wire| |w|w|w|aaa orc]; [| | | | |discriminate]; cbn [sess_step];
+  destruct e as [id wire| |w|w|w| |tid| |aaa orc]; [| | | | | | | |discriminate]; cbn [sess_step];
     unfold sess_fsm_only; rewrite ?H1, ?H2, ?H3; try (simpl; auto; fail).
   unfold ipcp_input. destruct (parse_wire wire); simpl; auto.
   destruct (ipcp_req (s_cfg s) (s_peer s) a) as [r p']. simpl. auto.
@@ -821,7 +822,7 @@ Definition sess_ok2 (s : sess) : Prop := sess_idle s \/ (sess_inv s /\ s_addr s 
 Lemma sess_step_ok2 : forall s e, no_conflict e = true -> sess_ok2 s -> sess_ok2 (fst (sess_step repaired s e)).
 Proof.
   intros s e Hnc H. destruct (is_reauth_b e) eqn:Hre.
-  - destruct e as [| | | | |aaa orc]; try discriminate. simpl in Hnc. cbn [sess_step].
+  - destruct e as [? ?| |?|?|?| |?| |aaa orc]; try discriminate. simpl in Hnc. cbn [sess_step].
     set (addr := match extract_ip repaired aaa with Some x => Some x | None => s_addr s end).
     pose proof (sess_reauth_ok s aaa orc) as Hok. cbn [sess_step] in Hok. fold addr in Hok.
     destruct (start_ncp_spec (s_owner s) (s_cfg s) (s_fsm s) (s_peer s) addr (s_open s) (s_lastreq s) orc)
@@ -869,8 +870,8 @@ Proof.
   assert (F : forall c' r, ic_assigned c' = ic_assigned (s_cfg s) ->
               ic_assigned (s_cfg (fst (sess_fsm_only fl s c' r))) = ic_assigned (s_cfg s)).
   { intros c' [a st'] Hc. unfold sess_fsm_only. destruct (fold_left _ _ _). simpl. exact Hc. }
-  destruct e as [id wire| |w|w|w|aaa orc]; [| | | | |discriminate]; cbn [sess_step];
-    try (apply F; try reflexivity; apply ipcp_learn_assigned).
+  destruct e as [id wire| |w|w|w| |tid| |aaa orc]; [| | | | | | | |discriminate]; cbn [sess_step];
+    try (apply F; try reflexivity; apply ipcp_learn_assigned); try reflexivity.
   unfold ipcp_input. destruct (parse_wire wire); simpl; auto.
   destruct (ipcp_req _ _ _). destruct (rcr_event _ _ _). destruct (fold_left _ _ _). reflexivity.
 Qed.
@@ -1396,3 +1397,55 @@ Proof.
   rewrite Hp in P. inversion P; subst. destruct (A o Ho) as (_ & T & L & Z & N).
   destruct Hbad as [H|[H|[H|H]]]; congruence.
 Qed.
+
+(* -- DNS options -- *)
+Lemma ipcp_dns_policy : forall c p os r p' t loc,
+  ipcp_req c p os = (r, p') ->
+  (t = 129%N /\ loc = ic_dns1 c) \/ (t = 131%N /\ loc = ic_dns2 c) ->
+  (forall o, In o (r_ack r) -> o_type o = t ->
+     In o os /\ length (o_data o) = 4%nat /\ (all_zero (o_data o) = true -> dns_usable loc = false)) /\
+  (forall n, In n (r_nak r) -> o_type n = t -> n = ip_option t loc /\ dns_usable loc = true) /\
+  (forall o, In o os -> o_type o = t -> length (o_data o) = 4%nat -> all_zero (o_data o) = true ->
+     dns_usable loc = true -> In (ip_option t loc) (r_nak r) /\ ~ In o (r_ack r)).
+Proof.
+  intros c p os r p' t loc Hreq Ht.
+  destruct (ipcp_partition c p os) as (A & B & C). rewrite Hreq in A, B, C. simpl in A, B, C.
+  assert (K : forall o, o_type o = t -> ipcp_kind c o = ipcp_dns_kind t loc o).
+  { intros o Ho. unfold ipcp_kind. destruct Ht as [[-> ->]|[-> ->]]; rewrite Ho; reflexivity. }
+  assert (T3 : t <> 3%N) by (destruct Ht as [[-> _]|[-> _]]; discriminate).
+  split; [|split].
+  - intros o Ho Hty. rewrite A in Ho. apply filter_In in Ho. destruct Ho as [Ho Hk].
+    rewrite (K o Hty) in Hk. unfold ipcp_dns_kind in Hk.
+    destruct (Nat.eqb_spec (length (o_data o)) 4) as [L|L]; [|discriminate].
+    split; auto. split; auto. intros Z. rewrite (ip_equal_zero _ L), Z in Hk. simpl in Hk.
+    destruct (dns_usable loc); [discriminate|reflexivity].
+  - intros n Hn Hty. rewrite B in Hn. apply in_flat_map in Hn. destruct Hn as (o & Ho & Hn).
+    destruct (ipcp_kind c o) eqn:E; simpl in Hn; try contradiction. destruct Hn as [->|[]].
+    revert E. unfold ipcp_kind, ipcp_dns_kind.
+    destruct (N.eqb_spec (o_type o) 3).
+    + split_ifs; intros E; try discriminate E; injection E as E'; rewrite <- E' in Hty; simpl in Hty; congruence.
+    + destruct (N.eqb_spec (o_type o) 129).
+      * destruct (Nat.eqb (length (o_data o)) 4); [|discriminate].
+        destruct (ip_equal (o_data o) ipv4zero); simpl; [|discriminate].
+        destruct (dns_usable (ic_dns1 c)) eqn:U; [|discriminate].
+        intros E; injection E as E'. rewrite <- E' in Hty |- *. simpl in Hty.
+        destruct Ht as [[-> ->]|[-> _]]; [auto|discriminate].
+      * destruct (N.eqb_spec (o_type o) 131); [|discriminate].
+        destruct (Nat.eqb (length (o_data o)) 4); [|discriminate].
+        destruct (ip_equal (o_data o) ipv4zero); simpl; [|discriminate].
+        destruct (dns_usable (ic_dns2 c)) eqn:U; [|discriminate].
+        intros E; injection E as E'. rewrite <- E' in Hty |- *. simpl in Hty.
+        destruct Ht as [[-> _]|[-> ->]]; [discriminate|auto].
+  - intros o Ho Hty L Z U.
+    assert (E : ipcp_kind c o = KNak (ip_option t loc)).
+    { rewrite (K o Hty). unfold ipcp_dns_kind. rewrite L, (ip_equal_zero _ L), Z, U. reflexivity. }
+    split.
+    + rewrite B. apply in_flat_map. exists o. split; auto. rewrite E. simpl; auto.
+    + intros Hack. rewrite A in Hack. apply filter_In in Hack. destruct Hack as [_ Hk]. rewrite E in Hk. discriminate.
+Qed.
+
+(* a freshly created IPCP object remembers nothing, so the hypothesis of iobj_run_remembered holds *)
+Lemma iobj_fresh_remembered : forall c ops x,
+  pp_addr (io_peer (iobj_run repaired (mkiobj c ipeer0) ops)) = Some x ->
+  ipcp_kind (io_cfg (iobj_run repaired (mkiobj c ipeer0) ops)) (mkopt 3 x) = KAck.
+Proof. intros c ops. apply iobj_run_remembered. intros x H. discriminate. Qed.
